@@ -72,6 +72,14 @@ CLAIMED = {
     note="Rational-lattice arguments only (periods are exact binary fractions); general IEEE-754 behaviour is covered only by the named tokens; polygon points on an edge accepted either way.",
     technique="TLA+ case table with exact integer arithmetic enumerated by TLC, one recording-callable test per case",
     design="4.13"),
+ "C14": dict(
+    text="Caching.tla models the lazy per-cell cache protocol of Caching1D/2D/3D (sampled nodes, calculated cells, which stencil nodes an evaluation asks the wrapped function for and in which order) "
+         "and, for 1-D, the exact cubic-Hermite interpolant over integers (x128) for an integer-coefficient polynomial family; TLC checks each node is requested at most once, the value is a function of the "
+         "point only, node exactness, exact reproduction of linear functions and the h^2 error bound on cubics, over all evaluation orders to depth 2-3 (3-4 thorough). Every order is replayed on the real "
+         "classes with a recording polynomial in two configurations (no_boundary_error/function_boundaries): asked nodes and order, value vs exact interpolant, value vs a fresh instance, value vs the unbounded variant.",
+    note="Area [0,N], resolution 1; agreement with the exact interpolant limited to 2e-5 by the code's 1e-7 node shift; the h^2 bound for arbitrary C2 functions is not decided (polynomial family only).",
+    technique="TLA+ cache-protocol state machine + exact integer Hermite interpolant, TLC-explored evaluation orders replayed on the code",
+    design="4.14"),
 }
 
 NOT_YET = {}
